@@ -171,6 +171,20 @@ def m_ecp_dup_am(b, rng):
     return True
 
 
+def m_ecp_dup_am_other_type(b, rng):
+    """the same momentum twice, once as a scalar and once as a spin-orbit potential: still twice"""
+    p = [z for z, el in b['elements'].items() if len(el.get('ecp_potentials', [])) >= 1]
+    if not p:
+        return False
+    pots = b['elements'][rng.choice(p)]['ecp_potentials']
+    extra = copy.deepcopy(rng.choice(pots))
+    extra['ecp_type'] = 'spinorbit_ecp' if extra['ecp_type'] == 'scalar_ecp' else 'scalar_ecp'
+    pots.append(extra)
+    if 'function_types' in b:
+        b['function_types'] = sorted(set(b['function_types']) | {extra['ecp_type']})
+    return True
+
+
 def m_ecp_len_gexp(b, rng):
     p = pots_of(b)
     if not p:
@@ -354,7 +368,7 @@ def m_missing_top(b, rng):
 
 
 CATALOGUE = [m_no_elements, m_negative_exp, m_zero_exp, m_dup_exp, m_short_row, m_long_row, m_zero_column, m_unused_primitive,
-             m_dup_column, m_fused_count, m_tag_missing, m_tag_extra, m_ecp_fused, m_ecp_dup_am, m_ecp_len_gexp, m_ecp_len_coef,
+             m_dup_column, m_fused_count, m_tag_missing, m_tag_extra, m_ecp_fused, m_ecp_dup_am, m_ecp_dup_am_other_type, m_ecp_len_gexp, m_ecp_len_coef,
              m_ecp_no_electrons, m_ecp_zero_electrons, m_ecp_zero_column, m_ecp_placeholder_not_highest, m_ecp_zero_row, m_missing_key, m_extra_key, m_number_not_string,
              m_am_negative, m_am_repeated, m_bad_function_type, m_bad_element_key, m_empty_shell_list, m_empty_exponents,
              m_name_not_in_names, m_bad_role, m_missing_top]
